@@ -609,4 +609,134 @@ framed (two entities, update addressed to the first). -/
 example : (World.put (World.put {} { id := 7, view := default }) { id := 9, view := default }).WF :=
   World.put_wf _ _ (World.put_wf _ _ (by intro p hp; cases hp))
 
+/-! ### the general form: an entity's state is the fold of its own packets -/
+
+/-- what a packet addressed to an *existing* entity does to that entity: the per-entity
+semantics of the update-like packets (everything but the three creation packets and the
+own-player position packet, which involve a second entity or replace the entity) -/
+def entityStep (cfg : Config) (e : Entity) : Packet → Entity
+  | .entityProperty _ idx data => (setClientProperty cfg.reg e idx data).1
+  | .nested _ sl payload =>
+    (match applyNested cfg.reg e sl payload with
+     | .ok (e', _, _) => e'
+     | .error _ => e)
+  | .position _ pose => setPose e pose
+  | _ => e          -- method calls, enter, leave, control: the entity is looked up, not changed
+
+/-- the packet kinds `entity_fold` covers -/
+def IsOp : Packet → Prop
+  | .entityProperty .. => True
+  | .nested .. => True
+  | .position .. => True
+  | .entityMethod .. => True
+  | .entityEnter .. => True
+  | .entityLeave .. => True
+  | _ => False
+
+theorem step_addressed (cfg : Config) (hg : cfg.dialect.game ≠ .wowp) (w : World) (id : Int) (e : Entity) (p : Packet)
+    (hwf : w.WF) (hget : w.get? id = some e) (ht : target p = some id) (hop : IsOp p) :
+    (step cfg w p).world.get? id = some (entityStep cfg e p) := by
+  have he : e.id = id := World.get_wf w hwf id e hget
+  cases p with
+  | entityProperty id' idx data =>
+    have hid : (id' : Int) = id := by simpa [target] using ht
+    subst hid
+    rw [step_entityProperty_eq cfg hg]
+    exact stepEntityProperty_get cfg w id' idx data e hwf hget
+  | nested id' sl payload =>
+    have hid : (id' : Int) = id := by simpa [target] using ht
+    subst hid
+    have hs : step cfg w (.nested id' sl payload) = stepNested cfg w id' sl payload := by
+      unfold step; cases hgame : cfg.dialect.game <;> simp_all
+    rw [hs]
+    unfold stepNested
+    simp only [hget, entityStep]
+    cases ha : applyNested cfg.reg e sl payload with
+    | error er =>
+      cases er with
+      | err x => simpa [fail] using hget
+      | hang => simpa [fail] using hget
+    | ok r =>
+      obtain ⟨e', l, raised⟩ := r
+      have hid' := applyNested_id cfg.reg e sl payload e' l raised ha
+      have key : (w.put e').get? (id' : Int) = some e' := by
+        have := World.get_put_same w e'
+        rw [hid', he] at this
+        exact this
+      cases raised <;> simpa [ok, fail, World.get?] using key
+  | position id' pose =>
+    have hid : id' = id := by simpa [target] using ht
+    subst hid
+    have hs : step cfg w (.position id' pose) = stepPosition w id' pose := by
+      unfold step; cases hgame : cfg.dialect.game <;> simp_all
+    rw [hs]
+    unfold stepPosition
+    simp only [hget, entityStep]
+    have := World.get_put_same w (setPose e pose)
+    rw [setPose_id, he] at this
+    simpa [ok] using this
+  | entityMethod id' idx data =>
+    have hs : step cfg w (.entityMethod id' idx data) = stepEntityMethod cfg w id' idx data := by
+      unfold step; cases hgame : cfg.dialect.game <;> simp_all
+    rw [hs]
+    unfold stepEntityMethod
+    cases hg2 : w.get? (id' : Int) with
+    | none => simpa [fail, entityStep] using hget
+    | some e2 => simpa [entityStep, World.get?] using hget
+  | entityEnter id' =>
+    have hs : step cfg w (.entityEnter id') = stepLookup w id' := by
+      unfold step; cases hgame : cfg.dialect.game <;> simp_all
+    rw [hs]; unfold stepLookup
+    cases w.get? id' <;> simpa [ok, fail, entityStep] using hget
+  | entityLeave id' =>
+    have hs : step cfg w (.entityLeave id') = stepLookup w id' := by
+      unfold step; cases hgame : cfg.dialect.game <;> simp_all
+    rw [hs]; unfold stepLookup
+    cases w.get? id' <;> simpa [ok, fail, entityStep] using hget
+  | _ => exact absurd hop (by simp [IsOp])
+
+/-- the packets of a stream that address entity `id`, in stream order -/
+def addressedTo (id : Int) (ps : List Packet) : List Packet := ps.filter (fun p => target p == some id)
+
+/-- **An entity's state is the fold of its own packets.** For every history in which the
+packets addressed to an existing entity are property updates, nested updates, position
+packets, method calls and enter / leave notifications — in any number and interleaving,
+succeeding or failing, among arbitrary packets for other entities (creations included) — the
+entity after the whole history is the initial one folded over exactly its own packets, in
+stream order, with the per-entity semantics `entityStep` (last-writer-wins updates
+`setClientProperty`, path updates `applyNested`, `setPose`; a failing packet leaves the entity as
+it was). Generalises `property_history_lww` and `C08.entity_history`; with
+`C06.nested_encode_apply` the nested steps are the list/dict operations that were encoded. -/
+theorem entity_fold (cfg : Config) (hg : cfg.dialect.game ≠ .wowp) (id : Int) :
+    ∀ (ps : List Packet) (w : World) (e : Entity), w.WF → w.get? id = some e →
+      (∀ p ∈ ps, target p = some id → IsOp p) →
+      (runAll cfg w ps).get? id = some ((addressedTo id ps).foldl (entityStep cfg) e) := by
+  intro ps
+  induction ps with
+  | nil => intro w e _ hget _; exact hget
+  | cons p ps ih =>
+    intro w e hwf hget hps
+    have hwf' : (step cfg w p).world.WF := step_wf cfg w p hwf
+    have hps' : ∀ q ∈ ps, target q = some id → IsOp q := fun q hq => hps q (List.mem_cons_of_mem _ hq)
+    show (runAll cfg (step cfg w p).world ps).get? id = _
+    by_cases ht : target p = some id
+    · have h1 := step_addressed cfg hg w id e p hwf hget ht (hps p (List.mem_cons_self ..) ht)
+      rw [ih _ _ hwf' h1 hps']
+      simp [addressedTo, ht]
+    · have hfr : (step cfg w p).world.get? id = some e := by
+        rw [step_frame cfg w p hwf id (fun i hi hc => ht (hc ▸ hi))]
+        exact hget
+      rw [ih _ _ hwf' hfr hps']
+      simp [addressedTo, ht]
+
+/-- Non-vacuity: a mixed history for entity 7 (update, nested update, position, call) among
+packets for entity 9 satisfies the side condition. -/
+example : ∀ p ∈ [Packet.entityProperty 7 0 [1], .position 9 default, .nested 7 false [0x80], .entityMethod 7 3 [],
+      .entityCreate 9 1 [], .position 7 default],
+    target p = some ((7 : Nat) : Int) → IsOp p := by
+  intro p hp _
+  simp only [List.mem_cons, List.mem_nil_iff, or_false] at hp
+  rcases hp with rfl | rfl | rfl | rfl | rfl | rfl <;> simp_all [IsOp, target]
+
+
 end ReplayModel.C05
